@@ -2,7 +2,7 @@
    The model abstracts TLS: a session is an identifier created by each successful control handshake; the data
    handshake records which session it offers. What OpenSSL does with the offered session (TLS 1.3 tickets are
    single-use: a recorded finding) is runtime behaviour outside the model. *)
-From LibFtp Require Import Bytes Decimal Reply Endpoint DataConn Client Client_Proofs.
+From LibFtp Require Import Bytes Decimal Reply Endpoint Ascii DataConn DataConn_Proofs Client Client_Proofs Login_Proofs Transfer_Proofs Transfer_More.
 Local Open Scope N_scope.
 
 (* every data handshake offers the control connection's CURRENT session when resumption is configured, and no
@@ -64,3 +64,24 @@ Proof. vm_compute. reflexivity. Qed.
 (* PARTIAL / recorded finding: with TLS 1.3 OpenSSL marks the shared SSL_SESSION not resumable after its first use,
    so only the first data connection of a control connection actually resumes: KNOWN-FINDING
    tls13/second-and-later-data-connection (observed by the peer's TLS engine, not expressible in this model). *)
+
+(* in a whole download over TLS the data handshake offers the control connection's session exactly when resumption is configured (data_events conjunct) *)
+Theorem C18_download_offers_control_session : forall w path r1 r2 rest x1 x2 x3 ip port,
+  insync w (r1 :: r2 :: rest) -> w_data w = None ->
+  c_mode (w_cfg w) = Passive -> c_tls (w_cfg w) = true ->
+  has_crlf path = false ->
+  simple_reaction r1 x1 -> is_negative x1 = false -> passive_target (w_cfg w) x1 ip port ->
+  dp_reachable (r_data r1) = true ->
+  accepts_transfer r2 x2 x3 -> dp_end (r_data r2) = DEof ->
+  dp_tls_ok (r_data r2) = true -> dp_shutdown_ok (r_data r2) = true ->
+  exists w', step w (ADownload path None None) = (OReturn (RvReplies [x1; x2; x3]), w') /\
+    insync w' rest /\ w_data w' = None /\ w_cfg w' = w_cfg w /\
+    sink_bytes (io_events (skipn (length (w_trace w)) (w_trace w'))) = delivered (c_type (w_cfg w)) (concat (dp_segs (r_data r2))) /\
+    wire_events (skipn (length (w_trace w)) (w_trace w')) =
+      [WLine (setup_line (w_cfg w)); WReply x1; WLine (RETR_ ++ SP :: path); WReply x2; WReply x3] /\
+    data_events (skipn (length (w_trace w)) (w_trace w')) =
+      [DNewObj; DConnectTo ip port true;
+       DHandshake (if c_resume (w_cfg w) then Some (w_sess_id w) else None) true;
+       DTlsShutdown true; DTcpShutdown; DClose].
+Proof. exact download_passive_complete_tls. Qed.
+Print Assumptions C18_download_offers_control_session.
